@@ -963,12 +963,12 @@ def instances(name, tier):
             for c in instances(fam, "quick"):
                 if c.name.startswith(("render_eom", "render_ising_dmmfirst")):
                     continue
-                if quick and fam in ("core", "typestate"):
+                # the relation hooks (two encoders, decoders, copies, switch_register on every state) cost far more
+                # per state than the replay itself: depth 3 for the small lattices, 2 for the two large ones
+                # (core at depth 3 in the thorough tier); measured: a depth-4 EOM lattice alone took 14 min
+                if fam == "typestate" or (quick and fam == "core"):
                     c.max_depth = 2
                     c.name = c.name.rsplit("-d", 1)[0] + "-d2"
-                if not quick and fam in ("eom", "render"):
-                    c.max_depth = 4
-                    c.name = c.name.rsplit("-d", 1)[0] + "-d4"
                 c.name = "rel_" + c.name
                 c.render = False
                 c.relations = True
